@@ -104,6 +104,12 @@ CHECKS = {
             "CLI handler (and through cli.main with argv for shorter sequences): exit status 0, stdout identical to the run on the decodable rows "
             "alone, exactly the skipped count on stderr, 'No traces found' iff nothing decodes.",
             TRUST + "Finite selectors: the solver's role is branch feasibility; exhausting the tree equals complete enumeration of the bound.", "DESIGN.md#C10"),
+    "C14": (True, "model_checking",
+            "symbolic execution of build_module_stubs_from_traces with solver-chosen row permutations and solver-chosen iteration orders of every set in monkeytype.stubs (CrossHair+z3)",
+            "Hash-seed and memory-layout nondeterminism become solver variables: every set built inside monkeytype.stubs iterates in a "
+            "solver-chosen order, rows are permuted/duplicated symbolically, and the resulting stub must equal the reference stub up to union "
+            "member order; includes the diamond case that exercises RewriteLargeUnion's ancestor choice.",
+            TRUST + "Sets are assumed to be the only hash-ordered structure used by the pipeline; real PYTHONHASHSEED variation across processes is not run.", "DESIGN.md#C14"),
 }
 
 NOT_APPLICABLE = {
